@@ -68,6 +68,7 @@ func (d *Drv) statsInCallback(where string) {
 
 // statsIntrinsic applies the C19 rules that relate the figures of one Stats() result to each other.
 func (d *Drv) statsIntrinsic(s *stats.World, where string) {
+	d.noteScale(s)
 	viol := func(kind, f string, a ...any) { d.viol("C19", kind, f+where, a...) }
 	if s.Entities.Total != s.Entities.Used+s.Entities.Recycled {
 		viol("stats-total", "Total=%d != Used %d + Recycled %d", s.Entities.Total, s.Entities.Used, s.Entities.Recycled)
@@ -211,4 +212,24 @@ func nextPow2(n int) int {
 		p <<= 1
 	}
 	return p
+}
+
+// noteScale records how large the world under test got (coverage counters).
+func (d *Drv) noteScale(s *stats.World) {
+	if n := int64(s.Entities.Used); n > d.Stat.MaxAlive {
+		d.Stat.MaxAlive = n
+	}
+	nt := int64(0)
+	for i := range s.Archetypes {
+		a := &s.Archetypes[i]
+		nt += int64(len(a.Tables) + a.FreeTables)
+		for j := range a.Tables {
+			if n := int64(a.Tables[j].Size); n > d.Stat.MaxTableSize {
+				d.Stat.MaxTableSize = n
+			}
+		}
+	}
+	if nt > d.Stat.MaxTables {
+		d.Stat.MaxTables = nt
+	}
 }
